@@ -7,6 +7,7 @@ import (
 	"go/build/constraint"
 	"go/scanner"
 	"go/token"
+	"go/types"
 	"os"
 	"sort"
 
@@ -50,12 +51,40 @@ func tokens(path string) ([]string, error) {
 
 // compareOutside checks that every top-level declaration of the source file re-appears in the
 // generated file, identical except at directive call sites, and that imports are only added.
-func compareOutside(key string, sp *packages.Package, sf *ast.File, sfset *token.FileSet, gp *packages.Package, gf *ast.File) FileCmp {
+func compareOutside(key string, sp *packages.Package, sf *ast.File, sfset *token.FileSet, gp *packages.Package, gf *ast.File, modifier bool) FileCmp {
 	res := FileCmp{Key: key}
 	dcalls := directiveCalls(sp, sf)
-	wraps := wrappersOf(gp, gf)
-	if len(dcalls) != len(wraps) {
-		res.Bad = fmt.Sprintf("%d directives in the source, %d generated closures", len(dcalls), len(wraps))
+	var gsites []*ast.CallExpr
+	appended := map[ast.Decl]bool{} // modifier mode: generated functions added to the file
+	if modifier {
+		sites, impl, decls := modSites(gp, gf)
+		gsites = sites
+		used := map[types.Object]bool{}
+		for _, c := range sites {
+			// the flow function called, and the pass-through helper each option was wrapped in
+			if id, ok := c.Fun.(*ast.Ident); ok {
+				used[gp.TypesInfo.Uses[id]] = true
+			}
+			for _, a := range c.Args {
+				if ac, ok := a.(*ast.CallExpr); ok {
+					if id, ok := ac.Fun.(*ast.Ident); ok {
+						if o := gp.TypesInfo.Uses[id]; o != nil {
+							used[o] = true
+						}
+					}
+				}
+			}
+		}
+		for o, fd := range decls {
+			if used[o] && (impl[o] != nil || helperPassesThrough(gp, fd) == "") {
+				appended[fd] = true
+			}
+		}
+	} else {
+		gsites = wrapperCalls(gp, gf)
+	}
+	if len(dcalls) != len(gsites) {
+		res.Bad = fmt.Sprintf("%d directives in the source, %d generated closures", len(dcalls), len(gsites))
 		return res
 	}
 	// imports: every source import (path+name) is still there
@@ -88,6 +117,17 @@ func compareOutside(key string, sp *packages.Package, sf *ast.File, sfset *token
 		return out
 	}
 	sd, gd := nonImport(sf), nonImport(gf)
+	if modifier {
+		// the generated functions (reached from the rewritten call sites) are additions; everything else must
+		// be the source's declarations, in order
+		var kept []ast.Decl
+		for _, d := range gd {
+			if !appended[d] {
+				kept = append(kept, d)
+			}
+		}
+		gd = kept
+	}
 	if len(sd) != len(gd) {
 		res.Bad = fmt.Sprintf("%d declarations in the source, %d in the generated file", len(sd), len(gd))
 		return res
@@ -138,7 +178,7 @@ func compareOutside(key string, sp *packages.Package, sf *ast.File, sfset *token
 	for _, c := range dcalls {
 		ss = append(ss, c)
 	}
-	for _, c := range wrapperCalls(gp, gf) {
+	for _, c := range gsites {
 		gs = append(gs, c)
 	}
 	for i := range sd {
